@@ -186,7 +186,7 @@ func VerifC09_Seek() {
 	verifrt.Assume(cur <= total)
 	a.v.offset = sizeBytes(cur)
 	o := verifrt.Int64("seekoff")
-	verifrt.Assume(o > -(1<<62))
+	verifrt.Assume(o > -(1 << 62))
 	verifrt.Assume(o < 1<<62)
 	whence := verifrt.Int("whence")
 
